@@ -192,6 +192,7 @@ struct Plan {
     // expectation for replays
     std::string expect_class;
     uint64_t expect_hash = 0;
+    std::string abi;             // build variant the plan was found under ("" = host default, "uchar" = plain char unsigned as on ARM/Xtensa); selects the build for a replay
 };
 std::string plan_to_text(const Plan &p);
 bool plan_from_text(const std::string &s, Plan &p, std::string &err);
@@ -251,6 +252,7 @@ struct Violation { std::string prop, clause, detail; };
 
 struct Frame { Bytes data; int src_station = -1; int src_node = -1; uint64_t wire_id = 0; };
 
+struct Event;
 struct Node {
     NodeCfg cfg;
     Attr attr;
@@ -266,6 +268,9 @@ struct Node {
     uint32_t dyn_failmask = 0;
     bool usable = true;
     void *ctx() { return (void *)this; }
+    // frames (and the tick) that arrived while the thread was busy: the socket buffer, ordered by arrival sequence number
+    std::map<uint64_t, std::shared_ptr<Event>> pending;
+    uint64_t wake_t = 0, wake_seq = 0; bool wake_set = false;
 };
 
 struct StationModel {
